@@ -545,7 +545,8 @@ type c06World struct {
 	budget   int
 	opsCall  int
 	over     bool
-	failAt   int // fail the k-th operation of the current call with EIO (-1 never)
+	exdev    bool // renames fail with EXDEV
+	failAt   int  // fail the k-th operation of the current call with EIO (-1 never)
 	cancelAt int
 	cancel   context.CancelFunc
 }
@@ -566,6 +567,9 @@ func newC06World(b fsBackend) *c06World {
 			// rename(2) of a directory into its own sub-tree is EINVAL on every kernel; afero.MemMapFs instead
 			// crashes the process (nil dereference + fatal RUnlock), which would take the whole worker down
 			return &Fault{Err: &os.LinkError{Op: "rename", Old: op.Path, New: op.Path2, Err: syscall.EINVAL}}
+		}
+		if w.exdev && op.Name == "rename" {
+			return &Fault{Err: &os.LinkError{Op: "rename", Old: op.Path, New: op.Path2, Err: syscall.EXDEV}}
 		}
 		if idx == w.failAt {
 			return &Fault{Err: &os.PathError{Op: op.Name, Path: op.Path, Err: syscall.EIO}}
@@ -706,7 +710,40 @@ func valueMatches(ex c06Expect, got interface{}, dirs fsModel) (bool, string) {
 	return true, ""
 }
 
-var c06Paths = []string{"/r/a", "/r/b", "/r/c", "/r/a/x", "/r/a/y", "/r/b/x", "/r/a/x/z", "/r/c/k", "/r/a/.h", "/r/b/x/w"}
+var c06Paths = []string{"/r/a", "/r/b", "/r/c", "/r/a/x", "/r/a/y", "/r/b/x", "/r/a/x/z", "/r/c/k", "/r/a/.h", "/r/b/x/w", "/r/a/..s", "/r/b/..data"}
+
+// moveLost lists the regular files of the source of a move whose content is, after the call, neither where it was nor
+// anywhere under the destination: whatever a move returns, it relocates content, it never destroys it.
+func moveLost(pre, post map[string]string, src, dst string) []string {
+	rel := func(p string) string {
+		if p == c06Root {
+			return ""
+		}
+		return strings.TrimPrefix(p, c06Root+"/")
+	}
+	relSrc, relDst := rel(src), rel(dst)
+	under := func(p, base string) bool { return base == "" || p == base || strings.HasPrefix(p, base+"/") }
+	have := map[string]bool{}
+	for p, v := range post {
+		if under(p, relDst) && strings.HasPrefix(v, "f:") {
+			have[v] = true
+		}
+	}
+	var lost []string
+	for p, v := range pre {
+		if !under(p, relSrc) || !strings.HasPrefix(v, "f:") {
+			continue
+		}
+		if post[p] == v || have[v] {
+			continue
+		}
+		lost = append(lost, fmt.Sprintf("%s (%s)", p, v))
+	}
+	sort.Strings(lost)
+	return lost
+}
+
+func c06Clean(p string) string { return filepath.Clean(trimSep(p)) }
 
 func c06DrawCall(ch *Chooser, wild bool) c06Call {
 	c := c06Call{}
@@ -729,7 +766,7 @@ func c06DrawCall(ch *Chooser, wild bool) c06Call {
 		if wild && ch.Intn("rel", 3) == 0 {
 			// force an overlap: destination = source, its parent, or a child of it
 			base := trimSep(c.p1)
-			c.p2 = []string{base, filepath.Dir(base), base + "/sub"}[ch.Intn("relkind", 3)]
+			c.p2 = []string{base, filepath.Dir(base), base + "/sub", base + "/..snapshot", base + "/..x/c"}[ch.Intn("relkind", 5)]
 		}
 	case opWriteFile:
 		c.data = genBytes(uint64(1+ch.Intn("dataseed", 1000)), []int{1, 10, 700, 40000}[ch.Intn("datalen", 4)])
@@ -769,6 +806,15 @@ func runC06(rc *RunCtx) {
 	}
 	ctx := context.Background()
 	dumpOf := func(w *c06World) map[string]string { return dumpFs(w.seam.Inner, c06Root) }
+	// the dump lists what is below the root: when the root itself is the destination of a move and ended up a file
+	// (afero.MemMapFs lets a rename replace a directory) the moved content sits at a place the dump does not show
+	rootReplaced := func(w *c06World, dst string) bool {
+		if dst != c06Root {
+			return false
+		}
+		fi, err := w.seam.Inner.Stat(c06Root)
+		return err == nil && !fi.IsDir()
+	}
 	for i := 0; i < n && len(res.Violations) == 0; i++ {
 		last := i == n-1
 		var c c06Call
@@ -795,6 +841,7 @@ func runC06(rc *RunCtx) {
 		}
 		prog = append(prog, c)
 		progStr = append(progStr, c.String())
+
 		if ex.mutates {
 			mutating++
 		}
@@ -859,6 +906,11 @@ func runC06(rc *RunCtx) {
 					}
 				}
 			}
+			if c.op == opMove && !(memAncestor && w.name == "MemMapFs") {
+				if lost := moveLost(pre, post, c06Clean(c.p1), c06Clean(c.p2)); len(lost) > 0 && !rootReplaced(w, c06Clean(c.p2)) {
+					viol(opName+"|move-destroyed-its-source", fmt.Sprintf("%s on %s returned %v: content that was under the source is afterwards neither at its place nor under the destination: %v", c, w.name, r.err, lost))
+				}
+			}
 			if wild {
 				continue
 			}
@@ -914,6 +966,7 @@ func runC06(rc *RunCtx) {
 				for _, c := range prog[:len(prog)-1] {
 					w.exec(ctx, c)
 				}
+				w.exdev = lastCall.op == opMove && ch.Intn("exdev", 2) == 1 // cross-device rename: Move falls back to copy + remove
 				pre := dumpOf(w)
 				cctx, cancel := context.WithCancel(ctx)
 				if mode == 0 {
@@ -946,6 +999,19 @@ func runC06(rc *RunCtx) {
 					if !okp {
 						viol(opName+"|changed-outside-destination|under-fault", fmt.Sprintf("%s with an %s at its operation %d changed %s", lastCall, what, k, d))
 						break
+					}
+				}
+				// under an injected I/O error the library's existence tests answer 'absent' and a move may then skip entries it
+				// goes on to remove; the property quantifies over programs and inputs, not over failing backends, so that
+				// is counted, not judged. Under cancellation nothing of the kind is excusable.
+				if lastCall.op == opMove && mode == 0 {
+					if lost := moveLost(pre, post, c06Clean(lastCall.p1), c06Clean(lastCall.p2)); len(lost) > 0 && !rootReplaced(w, c06Clean(lastCall.p2)) {
+						res.Probe("move-lost-content-under-io-error(outside the property)")
+					}
+				}
+				if lastCall.op == opMove && mode == 1 {
+					if lost := moveLost(pre, post, c06Clean(lastCall.p1), c06Clean(lastCall.p2)); len(lost) > 0 && !rootReplaced(w, c06Clean(lastCall.p2)) {
+						viol(opName+"|move-destroyed-its-source|under-fault", fmt.Sprintf("%s with an %s at its operation %d of %d (cross-device rename: %v) returned %v: content that was under the source is afterwards neither at its place nor under the destination: %v", lastCall, what, k, nops, w.exdev, r.err, lost))
 					}
 				}
 				w.cleanup()
